@@ -272,6 +272,13 @@ func evalWindow(e *expr, recorded []response, now, window time.Duration) tri {
 	}
 	// anything older than half the window makes the (differently rolled) latency histogram uncertain
 	latencyCertain := len(certain) == len(recorded)
+	for _, r := range recorded {
+		// a response slower than an hour is beyond what a latency histogram has to resolve: the latency atoms are
+		// not judged with one in play (it counts like any other response in every ratio)
+		if r.latency > time.Hour && now-r.t <= window {
+			latencyCertain = false
+		}
+	}
 	sort.Slice(maybe, func(i, j int) bool { return maybe[i].t > maybe[j].t }) // youngest first
 	var res tri = -1
 	for cut := 0; cut <= len(maybe); cut++ {
@@ -345,7 +352,12 @@ func c18prop(r *simkit.Run) {
 			q := w.arrive()
 			w.sim.RunTask(q.task)
 			if _, ok := q.task.Parked(); ok {
-				w.advance(rapid.SampledFrom(latencies).Draw(rt, "latency"))
+				lat := rapid.SampledFrom(latencies).Draw(rt, "latency")
+				if rapid.IntRange(0, 11).Draw(rt, "backend-hangs-for-hours") == 0 {
+					lat = rapid.SampledFrom([]time.Duration{59 * time.Minute, 61 * time.Minute, 2 * time.Hour, 30 * time.Hour}).Draw(rt, "hang")
+					w.r.Probe("response-after-more-than-an-hour")
+				}
+				w.advance(lat)
 				w.complete(q, rapid.SampledFrom(statuses).Draw(rt, "status"))
 				if !cfg.fine {
 					w.sim.Quiesce()
